@@ -143,7 +143,18 @@ def _binop(interp, op, a, b, inplace=False):
             else:
                 a.set_fn(res._fn)
             return a
-        return A.elementwise2(a, b, lambda x, y: _scalar_binop(op, x, y), sym)
+        res = A.elementwise2(a, b, lambda x, y: _scalar_binop(op, x, y), sym)
+        # index arrays stay affine under scalar shifts/scalings (needed to invert scatters through them)
+        arr_, sc_ = (a, b) if isinstance(a, SArr) else (b, a)
+        if isinstance(arr_, SArr) and not isinstance(sc_, SArr) and arr_.affine is not None and arr_.ndim == 1 and _I().type_tag(sc_) in ('int', 'bool'):
+            st, sp = arr_.affine
+            if op == 'Add':
+                res.affine = (st + sc_, sp)
+            elif op == 'Sub' and arr_ is a:
+                res.affine = (st - sc_, sp)
+            elif op == 'Mult':
+                res.affine = (st * sc_, sp * sc_)
+        return res
     # sequences
     if op == 'Add' and isinstance(a, (list, tuple, str)) and type(a) == type(b):
         if inplace and isinstance(a, list):
@@ -2248,3 +2259,9 @@ def glob_glob(interp, pattern, **k):
     if h is None:
         raise Unsupported("glob without a directory model")
     return h(pattern)
+
+
+@lib('numpy.asnumpy')
+def np_asnumpy(interp, *a, **k):
+    # numpy has no asnumpy (cupy does): the code's `except AttributeError` branch is the one taken with xp = numpy
+    raise PyRaise('AttributeError', "module 'numpy' has no attribute 'asnumpy'")
